@@ -270,6 +270,40 @@ impl Adapter for OverlayAdapter {
     }
 }
 
+/// storage fully under the TEST's control: same behaviour as MemoryAdapter (a write never replaces an existing
+/// key, listings are in key order with the extension stripped), but the test can replace, truncate or remove an
+/// item behind the replica's back through `map`
+pub struct StoreAdapter {
+    pub map: Arc<Mutex<BTreeMap<String, Vec<u8>>>>,
+}
+
+impl Adapter for StoreAdapter {
+    fn as_any(&self) -> &dyn Any {
+        self
+    }
+    fn as_any_mut(&mut self) -> &mut dyn Any {
+        self
+    }
+    fn read_object(&self, key: &str, offset: usize, length: usize) -> anyhow::Result<Vec<u8>> {
+        let m = self.map.lock().unwrap();
+        let d = m.get(key).ok_or_else(|| anyhow::anyhow!("object not found: {}", key))?;
+        if offset == 0 && length == 0 {
+            return Ok(d.clone());
+        }
+        if offset + length > d.len() {
+            return Err(anyhow::anyhow!("invalid slice range for key: {}", key));
+        }
+        Ok(d[offset..offset + length].to_vec())
+    }
+    fn write_object(&self, key: &str, data: &[u8]) -> anyhow::Result<()> {
+        self.map.lock().unwrap().entry(key.to_string()).or_insert_with(|| data.to_vec());
+        Ok(())
+    }
+    fn list_objects(&self, ext: &str) -> anyhow::Result<Vec<String>> {
+        Ok(self.map.lock().unwrap().keys().filter(|k| k.ends_with(ext)).map(|k| k[..k.len() - ext.len()].to_string()).collect())
+    }
+}
+
 // ---------------------------------------------------------------- seeded generator
 
 pub struct Rng(pub u64);
